@@ -85,3 +85,82 @@ func verifMutexHistory(boolField bool) {
 
 func VerifH13Mutex() { verifMutexHistory(false) }
 func VerifH13Bool()  { verifMutexHistory(true) }
+
+// H13c: a larger batch (beyond the sizes where sorting / batching code paths
+// are trivially order-preserving): filler entries on distinct columns plus
+// two conflicting writes to one hot column at chosen positions. The later
+// entry wins, the fillers are all present, every column holds one row.
+func VerifH13BigBatch() {
+	f := verifNewFragment(CacheTypeNone, 2)
+	if verifChoice("bool", 2) == 1 {
+		f.mutexVector = newBoolVector(f)
+	} else {
+		f.mutexVector = newRowsVector(f)
+	}
+	n := verifBound("bigbatch", 16)
+	hot := uint64(verifU16("col"))
+	verifAssume(hot < 1000)
+	if verifChoice("existing", 2) == 1 {
+		_, _ = f.setBit(uint64(verifChoice("existing.row", 2)), hot)
+	}
+	p1 := []int{0, n / 2}[verifChoice("first", 2)]
+	p2 := []int{n/2 + 1, n - 1}[verifChoice("second", 2)]
+	r1 := uint64(verifChoice("row1", 2))
+	r2 := 1 - r1
+	rs := make([]uint64, n)
+	cs := make([]uint64, n)
+	for i := 0; i < n; i++ {
+		// fillers: distinct columns above the hot one, descending so that the
+		// batch is not already ordered by column
+		cs[i], rs[i] = uint64(2000+n-i), uint64(i%2)
+	}
+	cs[p1], rs[p1] = hot, r1
+	cs[p2], rs[p2] = hot, r2
+	// the import may reorder its argument slices
+	err := f.bulkImport(append([]uint64{}, rs...), append([]uint64{}, cs...), &ImportOptions{})
+	verifReach("big batch imported")
+	verifAssert(err == nil, "bulkImport: no error")
+	b1, _ := f.bit(r1, hot)
+	b2, _ := f.bit(r2, hot)
+	verifAssert(verifAnd(b2, !b1), "the last write to a repeated column wins in a large batch")
+	k := verifChoice("filler", n)
+	if k != p1 && k != p2 {
+		bk, _ := f.bit(rs[k], cs[k])
+		bo, _ := f.bit(1-rs[k], cs[k])
+		verifAssert(verifAnd(bk, !bo), "filler columns hold exactly their row")
+	}
+}
+
+// H13d: a batch made of several rounds over the same columns (every column
+// repeated once per round, rows changing per round): the row of the last
+// round wins for every column.
+func VerifH13Rounds() {
+	f := verifNewFragment(CacheTypeNone, 2)
+	nrows := 3
+	if verifChoice("bool", 2) == 1 {
+		f.mutexVector = newBoolVector(f)
+		nrows = 2
+	} else {
+		f.mutexVector = newRowsVector(f)
+	}
+	rounds := 2 + verifChoice("rounds", verifBound("rounds", 3))
+	ncols := verifBound("roundcols", 5) + verifChoice("morecols", 3)
+	base := uint64(verifU16("base"))
+	shift := verifChoice("shift", nrows)
+	var rs, cs []uint64
+	for r := 0; r < rounds; r++ {
+		for c := 0; c < ncols; c++ {
+			rs = append(rs, uint64((r+shift)%nrows))
+			cs = append(cs, base+uint64(c)*3)
+		}
+	}
+	err := f.bulkImport(append([]uint64{}, rs...), append([]uint64{}, cs...), &ImportOptions{})
+	verifReach("rounds imported")
+	verifAssert(err == nil, "bulkImport: no error")
+	last := uint64((rounds - 1 + shift) % nrows)
+	c := base + uint64(verifChoice("probe", ncols))*3
+	for r := uint64(0); r < uint64(nrows); r++ {
+		b, _ := f.bit(r, c)
+		verifAssert(b == (r == last), "every column holds exactly the row of the last round")
+	}
+}
